@@ -238,12 +238,13 @@ theorem padding_reached (padding : ℝ) (r : List (Elem ℝ)) (u : String) (p : 
       simp only [Elem.loss, Elem.ramanGain, FiberP.loss, hnr]
   exact ⟨key, by rw [key]; exact le_max_left _ _⟩
 
-/-- what `design_span_loss` of the run's last fibre is after padding: the run's loss — plus the first fibre's
-user-set `att_in` whenever padding was applied (the code adds the whole `att_in`, not the increment). -/
+/-- after padding, the cached `design_span_loss` of the run's last fibre IS the loss of the run (whatever `att_in` the
+first fibre carried: repaired behaviour, the unrepaired code over-counted a user `att_in`) — so the gain computation
+of C09, which reads this cache, works on the true span loss. -/
 theorem padRun_dsl (padding : ℝ) (r : List (Elem ℝ)) (u : String) (p : FiberP ℝ) (v : String) (q : FiberP ℝ)
     (t : List (Elem ℝ)) (hr : r = .fiber v q :: t) (hl : r.getLast? = some (.fiber u p)) (hnr : p.raman = false) :
     ∃ p', (padRun padding r).getLast? = some (.fiber u p') ∧ p'.raman = false ∧
-      p'.dsl = some (runLoss (padRun padding r) + (if runLoss r < padding then q.attIn else 0)) := by
+      p'.dsl = some (runLoss (padRun padding r)) := by
   obtain ⟨key, _⟩ := padding_reached padding r u p v q t hr hl hnr
   rw [key]
   have hne : ¬ (p.raman = true) := by simp [hnr]
@@ -252,7 +253,7 @@ theorem padRun_dsl (padding : ℝ) (r : List (Elem ℝ)) (u : String) (p : Fiber
   dsimp only
   rw [if_neg hne]
   by_cases hlt : runLoss r < padding
-  · rw [if_pos hlt, if_pos hlt, max_eq_left (le_of_lt hlt)]
+  · rw [if_pos hlt, max_eq_left (le_of_lt hlt)]
     subst hr
     cases t with
     | nil =>
@@ -260,35 +261,17 @@ theorem padRun_dsl (padding : ℝ) (r : List (Elem ℝ)) (u : String) (p : Fiber
       obtain ⟨h1, h2⟩ := hl
       subst h1; subst h2
       refine ⟨{ q with attIn := q.attIn + padding - runLoss [Elem.fiber v q],
-                       dsl := some (runLoss [Elem.fiber v q] + (q.attIn + padding - runLoss [Elem.fiber v q])) },
+                       dsl := some (runLoss [Elem.fiber v q] + (padding - runLoss [Elem.fiber v q])) },
               ?_, hnr, ?_⟩
       · simp
       · simp only [Option.some.injEq]; ring
     | cons y t' =>
       refine ⟨{ p with dsl := some (runLoss (Elem.fiber v q :: y :: t')
-                  + (q.attIn + padding - runLoss (Elem.fiber v q :: y :: t'))) }, ?_, hnr, ?_⟩
+                  + (padding - runLoss (Elem.fiber v q :: y :: t'))) }, ?_, hnr, ?_⟩
       · rw [List.getLast?_cons, List.getLast?_concat]; simp
       · simp only [Option.some.injEq]; ring
-  · rw [if_neg hlt, if_neg hlt, max_eq_right (not_lt.mp hlt)]
+  · rw [if_neg hlt, max_eq_right (not_lt.mp hlt)]
     exact ⟨{ p with dsl := some (runLoss r) }, by simp [List.getLast?_append], hnr, by simp⟩
-
-/-- **Current code, defect:** with a user-set `att_in` on a span that gets padded, the cached `design_span_loss`
-(which the gain computation of C09 uses) is not the loss of the span: 10 km of 0.2 dB/km with `att_in = 2`,
-padding 10 dB → the span has 10 dB, `design_span_loss` says 12 dB. -/
-theorem padRun_dsl_fails_current :
-    ∃ (padding : ℝ) (r : List (Elem ℝ)) (u : String) (p : FiberP ℝ),
-      (padRun padding r).getLast? = some (.fiber u p) ∧ runLoss (padRun padding r) = 10 ∧ p.dsl = some 12 := by
-  let q : FiberP ℝ := { length := 10, lossCoef := 0.2, conIn := some 0, conOut := some 0, attIn := 2,
-                        lumped := 0, raman := false, ramanGain := none, dsl := none }
-  have h4 : runLoss [Elem.fiber "f" q] = 4 := by
-    simp only [runLoss_eq]; norm_num [q, Elem.loss, FiberP.loss, Elem.ramanGain]
-  have hp : padRun 10 [Elem.fiber "f" q] = [Elem.fiber "f" { q with attIn := 8, dsl := some 12 }] := by
-    simp only [padRun, List.getLast?_singleton]
-    rw [h4]
-    norm_num [q]
-  refine ⟨10, [.fiber "f" q], "f", { q with attIn := 8, dsl := some 12 }, ?_, ?_, rfl⟩
-  · rw [hp]; simp
-  · rw [hp]; simp only [runLoss_eq]; norm_num [q, Elem.loss, FiberP.loss, Elem.ramanGain]
 
 /-- **Current code, defect:** a span that begins or ends with a Fused element is never padded — `[Fused 1 dB,
 Fiber 2 dB]` and `[Fiber 2 dB, Fused 1 dB]` keep 3 dB under a padding of 10 dB. -/
@@ -309,19 +292,12 @@ theorem padRun_fused_edge_unpadded_fails_current :
     simp only [runLoss_eq]
     norm_num [Elem.loss, FiberP.loss, Elem.ramanGain]
 
-/-- padding a padded run again changes nothing (needed for redesign, C17), provided the first fibre carried no
-user `att_in` when padding was applied -/
+/-- padding a padded run again changes nothing (needed for redesign, C17) -/
 theorem padRun_idempotent (padding : ℝ) (r : List (Elem ℝ)) (u : String) (p : FiberP ℝ) (v : String) (q : FiberP ℝ)
-    (t : List (Elem ℝ)) (hr : r = .fiber v q :: t) (hl : r.getLast? = some (.fiber u p)) (hnr : p.raman = false)
-    (hq : runLoss r < padding → q.attIn = 0) :
+    (t : List (Elem ℝ)) (hr : r = .fiber v q :: t) (hl : r.getLast? = some (.fiber u p)) (hnr : p.raman = false) :
     padRun padding (padRun padding r) = padRun padding r := by
   obtain ⟨key, hge⟩ := padding_reached padding r u p v q t hr hl hnr
-  obtain ⟨p', hl', hnr', hd⟩ := padRun_dsl padding r u p v q t hr hl hnr
-  have hd' : p'.dsl = some (runLoss (padRun padding r)) := by
-    rw [hd]
-    by_cases hlt : runLoss r < padding
-    · simp [hlt, hq hlt]
-    · simp [hlt]
+  obtain ⟨p', hl', hnr', hd'⟩ := padRun_dsl padding r u p v q t hr hl hnr
   set r' := padRun padding r with hr'
   have hsplit := eq_dropLast_append r' _ hl'
   conv_lhs => unfold padRun
@@ -358,11 +334,10 @@ example : (0:ℝ) < 300000 ∧ (0:ℝ) < 90000 ∧ (90000:ℝ) ≤ 150000 ∧ (3
 
 /-- the hypotheses of `padding_reached` / `padRun_dsl` / `padRun_idempotent` are satisfiable: Fiber–Fused–Fiber -/
 example : ∃ (r : List (Elem ℝ)) (u : String) (p : FiberP ℝ) (v : String) (q : FiberP ℝ) (t : List (Elem ℝ)),
-    r = .fiber v q :: t ∧ r.getLast? = some (.fiber u p) ∧ p.raman = false ∧ (runLoss r < 10 → q.attIn = 0) ∧
-    runLoss r < 10 := by
-  let f : FiberP ℝ := { length := 10, lossCoef := 0.2, conIn := some 0, conOut := some 0, attIn := 0,
+    r = .fiber v q :: t ∧ r.getLast? = some (.fiber u p) ∧ p.raman = false ∧ runLoss r < 10 := by
+  let f : FiberP ℝ := { length := 10, lossCoef := 0.2, conIn := some 0, conOut := some 0, attIn := 1.5,
                         lumped := 0, raman := false, ramanGain := none, dsl := none }
-  refine ⟨[.fiber "a" f, .fused "x" 1, .fiber "b" f], "b", f, "a", f, _, rfl, by simp, rfl, fun _ => rfl, ?_⟩
+  refine ⟨[.fiber "a" f, .fused "x" 1, .fiber "b" f], "b", f, "a", f, _, rfl, by simp, rfl, ?_⟩
   simp only [runLoss_eq]; norm_num [f, Elem.loss, FiberP.loss, Elem.ramanGain]
 
 end Gnpy.Chain
